@@ -92,9 +92,14 @@ def hdr_value(h, field):
     return hsrc(h.fields['t'], field)
 
 
+EXTRA_REGISTRARS = []
+
+
 def register(lib):
     M = lib.methods
     E = lib.ext
+    for r in EXTRA_REGISTRARS:
+        r(lib)
 
     def tf_attr(I, obj, attr):
         from pyvc.symex import ExtRef
